@@ -1,0 +1,146 @@
+//! Verification hooks. Compiled only with `--cfg daniel729_chess_verif`; without the flag
+//! none of this exists and the engine is unchanged.
+//!
+//! The hooks either *gauge* (count node-entry polls, record iteration depths and high-water
+//! marks) or *inject* (flip the stop flag at a preset poll, wipe the table, sleep at a named
+//! schedule point). They never decide anything about chess.
+#![allow(dead_code)]
+
+use crate::search::TranspositionTable;
+use std::io::Write;
+use std::sync::atomic::{AtomicBool, AtomicU64, Ordering::SeqCst};
+use std::sync::Mutex;
+
+/// Number of node-entry polls since the last `reset`.
+pub static POLLS: AtomicU64 = AtomicU64::new(0);
+/// Poll index (1-based) at which the stop flag is flipped; 0 = never.
+pub static STOP_AT: AtomicU64 = AtomicU64::new(0);
+/// Polls observed after the flag was flipped by the hook.
+pub static POLLS_AFTER_STOP: AtomicU64 = AtomicU64::new(0);
+/// Wipe the transposition table at every poll (table-less search).
+pub static CLEAR_TABLE: AtomicBool = AtomicBool::new(false);
+/// Deepest ply (distance from the root) seen at a poll.
+pub static MAX_REAL_DEPTH: AtomicU64 = AtomicU64::new(0);
+/// Depth of the iteration the driver is currently in (0 = none started).
+pub static CUR_ITERATION: AtomicU64 = AtomicU64::new(0);
+/// Iterations started since the last `reset`.
+pub static ITERATIONS: AtomicU64 = AtomicU64::new(0);
+/// Depth limit the monitor is watching (0 = none): polls in deeper iterations are counted.
+pub static DEPTH_LIMIT: AtomicU64 = AtomicU64::new(0);
+/// Polls that happened while the current iteration was deeper than `DEPTH_LIMIT`.
+pub static POLLS_BEYOND_LIMIT: AtomicU64 = AtomicU64::new(0);
+/// Deepest iteration started.
+pub static MAX_ITERATION: AtomicU64 = AtomicU64::new(0);
+/// Flip the flag once this many polls happened beyond the limit / in total (0 = never).
+pub static POLL_BUDGET: AtomicU64 = AtomicU64::new(0);
+/// Set when `POLL_BUDGET` ended the search.
+pub static BUDGET_HIT: AtomicBool = AtomicBool::new(false);
+/// High-water mark of the per-ply state stack.
+pub static MAX_STATE_LEN: AtomicU64 = AtomicU64::new(0);
+/// High-water mark of a move buffer.
+pub static MAX_MOVES_LEN: AtomicU64 = AtomicU64::new(0);
+
+static SEQ: AtomicU64 = AtomicU64::new(0);
+static LOG: Mutex<Option<std::fs::File>> = Mutex::new(None);
+
+pub fn reset() {
+    POLLS.store(0, SeqCst);
+    STOP_AT.store(0, SeqCst);
+    POLLS_AFTER_STOP.store(0, SeqCst);
+    CLEAR_TABLE.store(false, SeqCst);
+    MAX_REAL_DEPTH.store(0, SeqCst);
+    CUR_ITERATION.store(0, SeqCst);
+    ITERATIONS.store(0, SeqCst);
+    DEPTH_LIMIT.store(0, SeqCst);
+    POLLS_BEYOND_LIMIT.store(0, SeqCst);
+    MAX_ITERATION.store(0, SeqCst);
+    POLL_BUDGET.store(0, SeqCst);
+    BUDGET_HIT.store(false, SeqCst);
+}
+
+/// Called at the node-entry poll of the search, before the flag is read.
+pub fn node_poll(table: &mut TranspositionTable, flag: &AtomicBool, real_depth: u8) {
+    let n = POLLS.fetch_add(1, SeqCst) + 1;
+    MAX_REAL_DEPTH.fetch_max(real_depth as u64, SeqCst);
+    if CLEAR_TABLE.load(SeqCst) {
+        table.clear();
+    }
+    let stop_at = STOP_AT.load(SeqCst);
+    if stop_at != 0 {
+        if n > stop_at {
+            POLLS_AFTER_STOP.fetch_add(1, SeqCst);
+        }
+        if n == stop_at {
+            flag.store(false, SeqCst);
+        }
+    }
+    let limit = DEPTH_LIMIT.load(SeqCst);
+    if limit != 0 && CUR_ITERATION.load(SeqCst) > limit {
+        POLLS_BEYOND_LIMIT.fetch_add(1, SeqCst);
+    }
+    let budget = POLL_BUDGET.load(SeqCst);
+    if budget != 0 && n >= budget && !BUDGET_HIT.swap(true, SeqCst) {
+        flag.store(false, SeqCst);
+    }
+}
+
+/// Called at the top of every iteration of the iterative-deepening driver.
+pub fn iteration(depth: u8) {
+    CUR_ITERATION.store(depth as u64, SeqCst);
+    MAX_ITERATION.fetch_max(depth as u64, SeqCst);
+    ITERATIONS.fetch_add(1, SeqCst);
+}
+
+fn overflow(what: &str, len: usize, capacity: usize) -> ! {
+    // Stop before the unchecked write happens: what follows would be undefined behaviour.
+    eprintln!("VERIF-HOOK capacity overflow: {what} len={len} capacity={capacity}");
+    event("CAPACITY_OVERFLOW");
+    std::process::abort();
+}
+
+/// Called before a state is pushed on the per-ply state stack.
+pub fn on_state_push(len: usize, capacity: usize) {
+    MAX_STATE_LEN.fetch_max(len as u64 + 1, SeqCst);
+    if len >= capacity {
+        overflow("state stack", len, capacity);
+    }
+}
+
+/// Called before a move is pushed on a move buffer.
+pub fn on_move_push(len: usize, capacity: usize) {
+    MAX_MOVES_LEN.fetch_max(len as u64 + 1, SeqCst);
+    if len >= capacity {
+        overflow("move buffer", len, capacity);
+    }
+}
+
+/// Pure log point: appends `<seq> <name> <thread>` to the file named by `VERIF_EVENT_LOG`.
+/// All events of a process share one sequence counter, so their order is total.
+pub fn event(name: &str) {
+    let Ok(path) = std::env::var("VERIF_EVENT_LOG") else {
+        return;
+    };
+    let mut log = LOG.lock().unwrap_or_else(|e| e.into_inner());
+    // the number is taken under the lock, so file order and sequence order agree
+    let seq = SEQ.fetch_add(1, SeqCst);
+    if log.is_none() {
+        *log = std::fs::OpenOptions::new()
+            .create(true)
+            .append(true)
+            .open(path)
+            .ok();
+    }
+    if let Some(file) = log.as_mut() {
+        let _ = writeln!(file, "{seq} {name} {:?}", std::thread::current().id());
+    }
+}
+
+/// Named schedule point: logs the event, then sleeps `VERIF_DELAY_<name>` milliseconds if set.
+pub fn sched(name: &str) {
+    event(name);
+    if let Ok(value) = std::env::var(format!("VERIF_DELAY_{name}")) {
+        if let Ok(ms) = value.parse::<u64>() {
+            std::thread::sleep(std::time::Duration::from_millis(ms));
+        }
+    }
+}
